@@ -88,7 +88,7 @@ type MergeTuple []uint64
 // Op converts a MergeTuple into a MergeOp.
 func (t MergeTuple) Op() (MergeOp, error) {
 	var op MergeOp
-	if t == nil || len(t) == 1 {
+	if len(t) < 2 {
 		return op, fmt.Errorf("invalid merge tuple %v, need at least target and to-merge labels", t)
 	}
 	op.Target = t[0]
